@@ -275,7 +275,7 @@ pub fn run(cfg: &Cfg, rep: &mut Rep) {
     }
     // random part
     let mut r = Rng::new(cfg.seed, 0x0100 + sh as u64);
-    let nrand = cfg.budget(1_500_000);
+    let nrand = cfg.budget(6_000_000);
     for i in 0..nrand {
         // operands through the raw constructor in 1 of 4 cases, otherwise canonical parts of a random count
         let a = if i % 4 == 0 {
